@@ -40,7 +40,9 @@ def cases(tier, seed):
     n = 300 if tier == "quick" else 6000
     out = []
     for i in range(n):
-        N = int((1, 1, 2, 3, 5, 17, 60, 200)[int(rng.integers(0, 8))])
+        # every small row count systematically (a table whose row count equals a column count is where
+        # array-orientation inference goes wrong), then a spread of sizes
+        N = (i % 14) + 1 if i < n // 3 else int((1, 1, 2, 3, 5, 6, 7, 9, 17, 60, 200)[int(rng.integers(0, 11))])
         route = ROUTES[int(rng.integers(0, len(ROUTES)))]
         prec = (0, 2, 4, 8, None)[int(rng.integers(0, 5))]
         out.append({"N": N, "route": route, "precision": prec, "big": bool(rng.random() < 0.3),
